@@ -446,6 +446,10 @@ class CallMixin:
             items = self.concrete_items(x, st)
             return self.make_record(recv, items, {})
         place = node.func.value if (node is not None and isinstance(node.func, ast.Attribute)) else None
+        if isinstance(recv, str) and name == "join" and len(args) == 1 and isinstance(args[0], SV) and args[0].pt.kind == "seq" and args[0].pt.args[0] == STR:
+            # sep.join(lines): strings are opaque, the result is an uninterpreted function of the separator and the list
+            self.ctx.declare_fun("str_join", ["Str", smt.SeqSort("Str")], "Str")
+            return SV(self.ctx.app("str_join", ops.term(recv), args[0].term), STR)
         if isinstance(recv, list):
             if name == "append":
                 recv.append(args[0])
@@ -456,6 +460,27 @@ class CallMixin:
         if isinstance(recv, dict):
             if name in ("keys", "values", "items"):
                 return getattr(recv, name)()
+        if name in ("union", "difference", "intersection") and ((isinstance(recv, tuple) and recv and recv[0] == "#emptyset") or (isinstance(recv, SV) and recv.pt.kind == "set")):
+            # a.union(b, c, ...) / a.difference(b, c, ...): folded binary set operations (new set, operands untouched)
+            others = [a for a in args if not (isinstance(a, tuple) and a and a[0] == "#emptyset")]
+            cur = None if isinstance(recv, tuple) else recv
+            opn = {"union": ast.BitOr(), "difference": ast.Sub(), "intersection": ast.BitAnd()}[name]
+            for b in others:
+                if not (isinstance(b, SV) and b.pt.kind == "set"):
+                    raise Unsupported(f"set.{name} with a non-set operand {b!r}")
+                if cur is None:
+                    if name == "union":
+                        cur = b
+                    else:
+                        cur = self.set_of([], b.pt)
+                    continue
+                cur = self.set_binop(opn, cur, b, st)
+            if cur is None:
+                return ("#emptyset",)
+            if cur is recv:
+                # a copy: same members
+                return cur
+            return cur
         if isinstance(recv, tuple) and recv and recv[0] == "#emptyset":
             raise Unsupported("untyped empty set: declare the local's type in the contract (locals=...)")
         if isinstance(recv, SV):
